@@ -361,13 +361,30 @@ wait:
 	return rumpOutcome{}
 }
 
-func c16Batch(t *rapid.T) {
+func c16Batch(t *rapid.T) { c16BatchWith(t, false) }
+
+// c16BatchBigTargetDB: the same batches with the configuration pinned to the class "fixed target database and
+// element-by-element route" (both rare on their own in the free draw).
+func c16BatchBigTargetDB(t *rapid.T) { c16BatchWith(t, true) }
+
+func c16BatchWith(t *rapid.T, bigTargetDB bool) {
 	c := rumpConf{targetDB: rapid.SampledFrom([]int{-1, -1, 0, 4}).Draw(t, "targetDB"),
 		keyNumber: uint32(rapid.SampledFrom([]int{1, 2, 3, 5, 50}).Draw(t, "keyNumber")),
 		threshold: rapid.SampledFrom([]uint64{500 * 1024 * 1024, 500 * 1024 * 1024, 30, 60, 1}).Draw(t, "threshold"),
 		policy:    rapid.SampledFrom([]string{"none", "rewrite"}).Draw(t, "policy")}
+	if c.targetDB != -1 && rapid.Bool().Draw(t, "bigRouteWithTargetDB") {
+		// the element-by-element route together with a fixed target database
+		c.threshold = rapid.SampledFrom([]uint64{1, 30, 60}).Draw(t, "lowThreshold")
+	}
+	if bigTargetDB {
+		c.targetDB = rapid.SampledFrom([]int{0, 4, 4}).Draw(t, "fixedTargetDB")
+		c.threshold = rapid.SampledFrom([]uint64{1, 30, 60}).Draw(t, "lowThreshold2")
+	}
 	c.filt = drawFilterConf(t, false, nil)
 	c.filt.slots, c.filt.lua = nil, false
+	if bigTargetDB && rapid.Bool().Draw(t, "noFilters") {
+		c.filt = filterConf{}
+	}
 	if rapid.IntRange(0, 3).Draw(t, "lowQps") == 0 {
 		c.qps = rapid.SampledFrom([]int{2, 3, 5}).Draw(t, "qps") // the rate limiter really limits
 	}
@@ -452,8 +469,9 @@ func c16KeyFile(t *rapid.T) {
 	c16Report(t, c, []*rumpScript{s}, []rumpOutcome{o})
 }
 
-func TestC16(t *testing.T)        { rapid.Check(t, c16Batch) }
-func TestC16KeyFile(t *testing.T) { rapid.Check(t, c16KeyFile) }
+func TestC16(t *testing.T)            { rapid.Check(t, c16Batch) }
+func TestC16BigTargetDB(t *testing.T) { rapid.Check(t, c16BatchBigTargetDB) }
+func TestC16KeyFile(t *testing.T)     { rapid.Check(t, c16KeyFile) }
 
 func TestC16Regress(t *testing.T) {
 	// fixed D18: big key + key_exists=rewrite + a key that already exists on the target
